@@ -4,7 +4,9 @@
    configurations) and a schedule of generate_samples() calls on its samplers.  For every call the
    harness hands over the raw draw of an identically seeded twin SciPy object and the array ropt
    returned; [check_case] runs Model/Sampler.v on the raw draw and compares, and also evaluates the
-   property's clauses directly on the returned array. *)
+   property's clauses directly on the returned array.  Gradient evaluations through the public path
+   (EnsembleEvaluator.calculate) are checked against the model of _perturb_variables: calling order,
+   sum over the samplers, variables + magnitudes * samples. *)
 From Coq Require Import QArith ZArith List Bool Arith Qabs Qround Uint63.
 From Ropt Require Import Base.Num Base.ListX Model.Sampler.
 Import ListNotations.
@@ -28,13 +30,24 @@ Record call := {
   k_out : option arr3          (* array returned by generate_samples(); None = it raised *)
 }.
 
+(* one gradient evaluation through the public path (EnsembleEvaluator.calculate -> _perturb_variables):
+   the twin draws for the samplers in the calling order the PROPERTY prescribes (first appearance in
+   gradient.samplers; all samplers share one generator, so another order gives other numbers) *)
+Record e2e := {
+  e_raws : list (nat * raw);   (* (sampler index, draw of its twin), in calling order *)
+  e_x : list Q;                (* variables *)
+  e_mag : list Q;              (* gradient.perturbation_magnitudes (absolute; no finite bounds) *)
+  e_out : option arr3          (* GradientEvaluations.perturbed_variables; None = it raised *)
+}.
+
 Record case := {
   c_R : nat; c_P : nat; c_V : nat;
   c_varmask : option (list bool);          (* variables.mask *)
   c_assign : option (list Z);              (* gradient.samplers *)
   c_samplers : list scfg;                  (* EnOptConfig.samplers *)
   c_masks : list (option (list bool));     (* implementation: the mask handed to every created sampler *)
-  c_calls : list call
+  c_calls : list call;
+  c_e2e : list e2e                         (* gradient evaluations through EnsembleEvaluator.calculate *)
 }.
 
 Definition near (x m : Q) : bool := Qleb (Qabs (x - m)) (Q_ 1 1000000000000000).
@@ -54,6 +67,11 @@ Definition zeros_ok (mask : option (list bool)) (a : arr3) : bool := forallb (fo
 Definition blk_eqb (a b : list (list Q)) : bool := list_eqb (list_eqb Qeqb) a b.
 Definition blocks_equal (a : arr3) : bool :=
   match a with [] => true | b :: t => forallb (blk_eqb b) t end.
+
+(* not shared: the realizations get different perturbations (the draws are continuous, the points of a
+   sequence distinct; an accidental coincidence of two whole blocks has probability zero) *)
+Fixpoint pairwise_distinct (l : list (list (list Q))) : bool :=
+  match l with [] => true | b :: t => negb (existsb (blk_eqb b) t) && pairwise_distinct t end.
 
 Definition range_ok (a : arr3) : bool :=
   forallb (forallb (forallb (fun x => Qleb (-1) x && Qleb x 1))) a.
@@ -82,9 +100,42 @@ Definition check_call (c : case) (k : call) : bool :=
           arr_cmp (if is_qmc m then near else Qeqb) out exp
           && shape_ok (c_R c) (c_P c) (c_V c) out
           && zeros_ok mask out
-          && (if s_shared s then blocks_equal out else true)
+          && (if s_shared s then blocks_equal out
+              else if Nat.eqb (sample_dim (c_V c) mask) 0 || Nat.eqb (c_P c) 0 then true else pairwise_distinct out)
           && (if is_bounded m && s_default s then range_ok out else true)
           && (match m with Lhs => lhs_ok (s_shared s) (c_R c) (c_P c) (c_V c) mask out | _ => true end)
+      | _, _ => false
+      end
+  end.
+
+Definition near12 (x m : Q) : bool := Qleb (Qabs (x - m)) (Q_ 1 1000000000000).
+
+(* variables no sampler of the calling order handles keep their value exactly *)
+Fixpoint unperturbed_vec (c : case) (order : list nat) (v : nat) (x vec : list Q) : bool :=
+  match x, vec with
+  | xi :: x', o :: vec' =>
+      (if existsb (fun k => handled (get_mask k (c_assign c) (c_varmask c)) v) order then true else Qeqb o xi)
+      && unperturbed_vec c order (S v) x' vec'
+  | [], [] => true
+  | _, _ => false
+  end.
+
+Definition check_e2e (c : case) (e : e2e) : bool :=
+  let order := sampler_order (c_assign c) in
+  list_eqb Nat.eqb (map fst (e_raws e)) order &&
+  let outs := map (fun kr : nat * raw =>
+                     match nth_error (c_samplers c) (fst kr) with
+                     | None => None
+                     | Some s => generate (s_method s) (s_shared s) (c_R c) (c_P c) (c_V c)
+                                          (get_mask (fst kr) (c_assign c) (c_varmask c)) (snd kr)
+                     end) (e_raws e) in
+  match total_samples outs with
+  | None => false
+  | Some tot =>
+      match perturb (e_x e) (e_mag e) tot, e_out e with
+      | Some exp, Some out =>
+          arr_cmp near12 out exp && shape_ok (c_R c) (c_P c) (c_V c) out
+          && forallb (forallb (unperturbed_vec c order 0 (e_x e))) out
       | _, _ => false
       end
   end.
@@ -94,4 +145,5 @@ Definition check_case (c : case) : bool :=
   list_eqb mask_eqb (c_masks c) (map (fun i => get_mask i (c_assign c) (c_varmask c)) (seq 0 (length (c_samplers c))))
   && forallb (mask_wf (c_V c)) (c_masks c)
   && match c_assign c with None => true | Some a => Nat.eqb (length a) (c_V c) end
-  && forallb (check_call c) (c_calls c).
+  && forallb (check_call c) (c_calls c)
+  && forallb (check_e2e c) (c_e2e c).
